@@ -81,7 +81,8 @@ def fdiv(a, b):
 
 
 def job_cell(job):
-    v, shape, mode, seed = job
+    v, shape, mode, seed = job[:4]
+    order = job[4] if len(job) > 4 else None      # seed of a shuffle of the setter calls
     prog = worker_prog()
     extra = worker_extra()
     res = {'evaluations': 0, 'obligations': 0, 'discharged': 0, 'failures': [], 'nontrivial': [], 'samples': [],
@@ -100,7 +101,7 @@ def job_cell(job):
         cfg.update({'isize': Float(size), 'igap': Float(gap), 'ipos': (Float(px), Float(py))})
         for (x_, lo, hi) in ((size, 0.0, 1000.0), (gap, 0.0, 100.0), (px, 0.0, 4096.0), (py, 0.0, 4096.0)):
             asm += [F.cmp('le', lo, x_), F.cmp('le', x_, hi)]
-    S.configure(I, prog, bp, cfg)
+    call_order = S.configure(I, prog, bp, cfg, order)
     out = I.call_fn(prog.resolve('SvgBuilder::image'), [bp, n])
     if out is M.DEAD:
         raise Inconclusive('image() diverges')
@@ -178,7 +179,7 @@ def job_cell(job):
     res['panic_obligations'] = len(pan)
     res['evaluations'] = res['obligations']
     res['discharged'] = res['obligations'] - len(fails) - len(unk)
-    name = 'V%02d %s %s' % (v + 1, ['Square', 'Circle', 'RoundedSquare'][shape], mode)
+    name = 'V%02d %s %s%s' % (v + 1, ['Square', 'Circle', 'RoundedSquare'][shape], mode, '' if order is None else ' (setters called as %s)' % ','.join(call_order))
     res['nontrivial'] = ['%s: %s' % (name, lab) for lab, c in items if type(c) is not int]
     res['samples'] = [{'cell': name, 'free': 'margin: usize <= 2^20' + (', size in [0,1000], gap in [0,100], position in [0,4096]^2 (f64)' if mode == 'override' else ''),
                        'obligations': [lab for lab, _ in items], 'sent_to_solver': nsolv}]
@@ -191,6 +192,8 @@ def job_cell(job):
         req = 'svg v=%d mod=%s margin=%d image=61 ishape=%d' % (v, '00' * (n * n), mv, shape)
         if mode == 'override':
             req += ' isize=%r igap=%r ipos=%r,%r' % (model.get('size', 1.0), model.get('gap', 1.0), model.get('pos_x', 1.0), model.get('pos_y', 1.0))
+        if order is not None:
+            req += ' order=' + ','.join(call_order)
         ans = native.ask(req)
         confirmed, what = False, 'not reproduced: %s' % lab
         if ans.startswith('PANIC') or ans == 'ABORT':
@@ -271,6 +274,10 @@ def main(argv):
     for v in ov_vs:
         for shape in range(3):
             jobs.append((v, shape, 'override', chk.seed))
+    # the same override cells with the setters called in other orders (size/gap/position/margin/image/shape commute)
+    for k, v in enumerate(ov_vs[:3]):
+        for shape in range(3):
+            jobs.append((v, shape, 'override', chk.seed, chk.seed * 13 + 3 * k + shape + 1))
     native_path = chk.ov.native(chk.features)
     results = chk.jobs(job_cell, jobs, extra={'native': native_path})
     # side never shrinks as the version grows (concrete sides per version and shape)
